@@ -164,6 +164,8 @@ def run_shift(rep: Report, prog: Program, tier: str) -> None:
         return fn
     seqs = [tuple((i, 160 * i, 0.02 * i) for i in range(12)),
             ((0, 0, 0.0), (1, 160, 0.021), (3, 480, 0.07), (2, 320, 0.071), (4, 640, 0.08), (8, 1280, 0.2), (8, 1280, 0.21), (9, 1440, 0.22)),
-            tuple((i * 3, 480 * i, 0.06 * i + (0.004 if i % 2 else 0.0)) for i in range(10))]
+            tuple((i * 3, 480 * i, 0.06 * i + (0.004 if i % 2 else 0.0)) for i in range(10)),
+            # a long stream in large strides: one wrap from a small origin, two from an origin just below the wrap
+            tuple((i * 30000, 160 * i, 0.02 * i) for i in range(5))]
     for k, arr in enumerate(seqs):
         compare(f"receiver statistics, sequence #{k}", stats_case(arr), [(500, 16000), (M16 - 3, M32 - 500), (M16 - 1, M32 - 1)], sadd)
